@@ -9,4 +9,5 @@ cd /verif
 ./check "$PROP" "$TIER" 2>&1 | grep -E "VIOLATION|KNOWN-FINDING|machinery|UNDECIDED|\] proof|internal" | cut -c1-400
 rc=${PIPESTATUS[0]}
 git -C /repo checkout -- . 
+git -C /verif checkout -- evidence 2>/dev/null
 echo "exit=$rc"
